@@ -7,6 +7,7 @@ import (
 	"fmt"
 	"go/token"
 	"go/types"
+	"path/filepath"
 	"sort"
 	"strings"
 
@@ -329,8 +330,8 @@ func tagRule(p *Prog, r *Rule, only func(doc string, ti tagInfo, kind string) bo
 }
 
 func checkC10(p *Prog, rp *Report) {
-	rp.Explanation = "C10-TAGS: for DSC, Changes, SourceParagraph, BinaryParagraph, BinaryIndex, SourceIndex, BestChecksums and deb.Control every struct field's resolved wire name, Go type, delim, strip and required tag is compared with the Debian field table of that document kind (written from dsc(5), deb-changes(5), deb-src-control(5), deb-control(5), the Packages/Sources index format): the name must exist, comma lists split on ',' and stripped of blank/tab/LF, blank lists split on blanks, checksum lists one per line with the element type of their algorithm, versions/architectures/relationships in the library's own types. C10-SPLIT: the decoder splits blank separated lists on any white space and trims with the field's strip set. C10-HASHLINE: column tables of the checksum line parsers. C10-ACCESS: accessor tables (Maintainers, HasArchAll, SourcePackage, Checksums, Get* field names, AbsFiles). C10-READER: ParseControl reads source and binaries from one reader."
-	rp.NotDecided = "equality of decoded values with a document model for every generated document (needs the control reader and the reflection walker as transducers over all inputs); fields absent from the Go structs."
+	rp.Explanation = "C10-TAGS: for DSC, Changes, SourceParagraph, BinaryParagraph, BinaryIndex, SourceIndex, BestChecksums and deb.Control every struct field's resolved wire name, Go type, delim, strip and required tag is compared with the Debian field table of that document kind (written from dsc(5), deb-changes(5), deb-src-control(5), deb-control(5), the Packages/Sources index format): the name must exist, comma lists split on ',' and stripped of blank/tab/LF, blank lists split on blanks, checksum lists one per line with the element type of their algorithm, versions/architectures/relationships in the library's own types. C10-SPLIT: the decoder splits blank separated lists on any white space and trims with the field's strip set. C10-HASHLINE: column tables of the checksum line parsers. C10-ACCESS: accessor tables (Maintainers, HasArchAll, SourcePackage, Checksums, Get* field names, AbsFiles). C10-READER: ParseControl reads source and binaries from one reader. C10-DOC: for each of the eight document types a document is rendered in the Debian layout from a model (one value per field of the Debian field table of that kind: scalars, integers, yes/no, a version, architectures, a relationship folded over two lines, comma and blank lists folded, multi-line text with a blank-line dot, two lines per checksum list, five-column .changes lines) and (*Decoder).Decode is interpreted on it (reflect model of C09, reader oracle); every Go field is compared with the model: scalars verbatim, versions/architectures/relationships as the parsed form of exactly their text (their own UnmarshalControl interpreted on the trimmed element), lists as trimmed elements in order, checksum lines as (algorithm, hash, size, name[, section, priority]) tuples; Go-only fields stay untouched; fields without a Go counterpart are ignored."
+	rp.NotDecided = "document models other than the one of C10-DOC (field presence subsets, other list lengths); fields absent from the Go structs."
 	rp.Trusted = []string{"go/types, go/ssa", "the Debian field tables in c10.go"}
 	tags := rp.Rule("C10-TAGS", "struct tags of the typed documents agree with the Debian field tables", 100)
 	tagRule(p, tags, nil)
@@ -338,6 +339,7 @@ func checkC10(p *Prog, rp *Report) {
 	c10HashLine(p, rp)
 	c10Access(p, rp)
 	c10Reader(p, rp)
+	c10Doc(p, rp)
 }
 
 // ---- C10-SPLIT ------------------------------------------------------------------
@@ -846,24 +848,109 @@ func c10Access(p *Prog, rp *Report) {
 
 // c10Files: accessors over the Files list and the embedded-struct descent of the decoder.
 func c10Files(p *Prog, r *Rule) {
-	// DebianSource / GetDSC scan the Files list
-	for _, tc := range []struct{ typ, name, pred, lit string }{{"DSC", "DebianSource", "strings.Contains", ".debian."}, {"Changes", "GetDSC", "strings.HasSuffix", ".dsc"}} {
-		fn := p.Method("control", tc.typ, tc.name)
-		key := "control." + tc.typ + "." + tc.name
-		if fn == nil {
-			r.bad(key, "", "method not found", nil)
-			continue
+	// DebianSource / GetDSC: decision tables over the Files list (interpreted)
+	fhT0 := p.Named("control", "FileHash")
+	mkFiles := func(st *State, nt *types.Named, names []string) Val {
+		elemT := structOf(nt).Field(fieldIndex(structOf(nt), "Files")).Type().Underlying().(*types.Slice).Elem().(*types.Named)
+		arr := &ArrayV{}
+		for _, n := range names {
+			e := zeroVal(elemT).(*StructV)
+			e.F[0] = mkStruct(fhT0, map[string]Val{"Filename": n, "Hash": "h-" + n, "Size": int64(7), "Algorithm": "md5"})
+			arr.E = append(arr.E, e)
 		}
-		okLoop, okPred := false, false
-		for _, g := range guardsOf(fn) {
-			if strings.HasSuffix(g.Term, "< len(p0.Files))") {
-				okLoop = true
+		if len(names) == 0 {
+			return nilV{}
+		}
+		aid := st.alloc(types.NewArray(elemT, int64(len(names))), arr)
+		return SliceV{Obj: aid, Len_: len(names), Cap: len(names)}
+	}
+	if fn, nt := p.Method("control", "DSC", "DebianSource"), p.Named("control", "DSC"); fn == nil || nt == nil || fhT0 == nil {
+		r.bad("control.DSC.DebianSource", "", "method not found", nil)
+	} else {
+		var problems []string
+		for _, tc := range []struct {
+			files []string
+			want  string
+		}{
+			{[]string{"a_1.orig.tar.gz", "a_1-2.debian.tar.xz", "a_1-2.dsc"}, "a_1-2.debian.tar.xz"},
+			{[]string{"a_1-2.debian.tar.xz"}, "a_1-2.debian.tar.xz"},
+			{[]string{"a_1.tar.gz", "a_1.dsc"}, ""},
+			{[]string{"debian.tar.xz", "a.debian"}, ""},
+			{nil, ""},
+		} {
+			m := NewMachine(p, nil)
+			installStringModels(m)
+			st := initState(m, "control")
+			id := st.alloc(nt, mkStruct(nt, map[string]Val{"Filename": "/srv/in/a_1-2.dsc", "Files": mkFiles(st, nt, tc.files)}))
+			st.push(fn, []Val{Ptr{Obj: id}}, nil)
+			out := m.Run(st)
+			if len(out) != 1 || out[0].Status != stRet {
+				problems = append(problems, "undecided: "+retDesc(out))
+				break
 			}
-			if strings.HasPrefix(g.Term, tc.pred+"(") && strings.HasSuffix(g.Term, ".Filename,\""+tc.lit+"\")") {
-				okPred = true
+			tv := st.Ret.(*TupleV)
+			_, errNil := tv.E[1].(nilV)
+			switch {
+			case tc.want == "" && errNil:
+				problems = append(problems, fmt.Sprintf("Files %v: no error although no Debian tarball/diff is listed (returns %v)", tc.files, tv.E[0]))
+			case tc.want != "" && (!errNil || tv.E[0] != tc.want):
+				problems = append(problems, fmt.Sprintf("Files %v: DebianSource = %v (error nil: %v), want %q", tc.files, tv.E[0], errNil, tc.want))
 			}
 		}
-		r.check(okLoop && okPred, key, p.Pos(fn.Pos()), "scans the Files list for a name with "+tc.lit, fmt.Sprintf("expected a scan of the Files field testing %s(name, %q); scans Files: %v, test present: %v", tc.pred, tc.lit, okLoop, okPred))
+		fillProblems(r, "control.DSC.DebianSource", p.Pos(fn.Pos()), problems, "5 file lists: the listed name containing \".debian.\", or an error")
+	}
+	if fn, nt := p.Method("control", "Changes", "GetDSC"), p.Named("control", "Changes"); fn == nil || nt == nil || fhT0 == nil {
+		r.bad("control.Changes.GetDSC", "", "method not found", nil)
+	} else {
+		var problems []string
+		for _, tc := range []struct {
+			files   []string
+			want    string
+			parseOK bool
+		}{
+			{[]string{"x_1.tar.gz", "x_1.dsc", "x_1_amd64.deb"}, "/srv/in/x_1.dsc", true},
+			{[]string{"x_1.dsc"}, "/srv/in/x_1.dsc", false},
+			{[]string{"x_1.tar.gz", "x.dsc.asc"}, "", true},
+			{nil, "", true},
+		} {
+			m := NewMachine(p, nil)
+			installStringModels(m)
+			opened := []string{}
+			tc := tc
+			dscT := p.Named("control", "DSC")
+			m.Hooks[repoModule+"/control.ParseDscFile"] = func(m *Machine, st *State, call *ssa.CallCommon, args []Val) ([]Val, bool) {
+				opened = append(opened, fmt.Sprint(args[0]))
+				if !tc.parseOK {
+					return []Val{&TupleV{E: []Val{nilV{}, IfaceV{T: errType, V: "parse error"}}}}, true
+				}
+				id := st.alloc(dscT, mkStruct(dscT, map[string]Val{"Source": "the-parsed-dsc"}))
+				return []Val{&TupleV{E: []Val{Ptr{Obj: id}, nilV{}}}}, true
+			}
+			st := initState(m, "control")
+			id := st.alloc(nt, mkStruct(nt, map[string]Val{"Filename": "/srv/in/x_1_amd64.changes", "Files": mkFiles(st, nt, tc.files)}))
+			st.push(fn, []Val{Ptr{Obj: id}}, nil)
+			out := m.Run(st)
+			if len(out) != 1 || out[0].Status != stRet {
+				problems = append(problems, "undecided: "+retDesc(out))
+				break
+			}
+			tv := st.Ret.(*TupleV)
+			_, errNil := tv.E[1].(nilV)
+			_, resNil := tv.E[0].(nilV)
+			switch {
+			case tc.want == "":
+				if errNil || len(opened) > 0 {
+					problems = append(problems, fmt.Sprintf("Files %v: no .dsc is listed, yet GetDSC opens %v / returns no error", tc.files, opened))
+				}
+			case len(opened) != 1 || filepath.Clean(opened[0]) != tc.want:
+				problems = append(problems, fmt.Sprintf("Files %v of /srv/in/x_1_amd64.changes: GetDSC opens %v, want %s", tc.files, opened, tc.want))
+			case tc.parseOK && (!errNil || resNil):
+				problems = append(problems, "the parsed .dsc is not returned")
+			case !tc.parseOK && (errNil || !resNil):
+				problems = append(problems, "a parse error of the .dsc is not returned (or a value comes with it)")
+			}
+		}
+		fillProblems(r, "control.Changes.GetDSC", p.Pos(fn.Pos()), problems, "4 file lists: the listed *.dsc is opened next to the .changes; result and error passed through; none listed is an error")
 	}
 	// AbsFiles: every listed name joined to the directory of the control file, entries otherwise unchanged, order kept
 	for _, typ := range []string{"DSC", "Changes"} {
@@ -905,71 +992,7 @@ func c10Files(p *Prog, r *Rule) {
 		want := "/srv/in/one.tar.gz|h-one.tar.gz|7,/srv/in/two.dsc|h-two.dsc|7"
 		r.check(strings.Join(got, ",") == want, key, p.Pos(fn.Pos()), "names joined to the control file's directory; hashes, sizes and order unchanged", fmt.Sprintf("AbsFiles of /srv/in/x.ctl listing one.tar.gz, two.dsc = %v", got))
 	}
-	// the decoder must descend into embedded (anonymous) structs such as BestChecksums
-	ds := p.Func("control", "decodeStruct")
-	if ds == nil {
-		r.bad("control.decodeStruct:embedded", "", "function not found", nil)
-		return
-	}
-	var descent *ssa.Call
-	for _, c := range callsNamed(ds, ds.String()) {
-		// the recursion on a field (not the pointer-following call at the top)
-		tm := newTermer()
-		if strings.Contains(tm.term(c.Call.Args[1]), ".Field(") {
-			descent = c
-		}
-	}
-	var gA, gP *guard
-	gs := guardsOf(ds)
-	for i, g := range gs {
-		if strings.HasSuffix(g.Term, ".Anonymous") {
-			gA = &gs[i]
-		}
-		if strings.Contains(g.Term, ".Type == reflect.TypeOf(") {
-			gP = &gs[i]
-		}
-	}
-	ok := false
-	why := "no recursive descent into struct-typed fields"
-	if descent != nil {
-		switch {
-		case gA == nil:
-			ok = true
-		case descent.Block().Dominates(gA.If.Block()) || descentGuardDominates(gs, descent, gA):
-			ok = true
-		default:
-			why = "the descent into nested structs happens only after anonymous fields other than Paragraph were skipped: an embedded struct such as BestChecksums is never filled"
-			if gP != nil {
-				// reachable from the not-a-Paragraph side within the same iteration?
-				header := descent.Block()
-				_ = header
-				seen := map[*ssa.BasicBlock]bool{}
-				var walk func(b *ssa.BasicBlock) bool
-				walk = func(b *ssa.BasicBlock) bool {
-					if seen[b] {
-						return false
-					}
-					seen[b] = true
-					if b == descent.Block() {
-						return true
-					}
-					for _, s2 := range b.Succs {
-						if s2.Dominates(b) { // back edge: next iteration
-							continue
-						}
-						if walk(s2) {
-							return true
-						}
-					}
-					return false
-				}
-				if walk(gP.If.Block().Succs[1]) {
-					ok = true
-				}
-			}
-		}
-	}
-	r.check(ok, "control.decodeStruct:embedded", p.Pos(ds.Pos()), "struct-typed fields, embedded ones included, are decoded from the same paragraph", why)
+	// (that the decoder descends into embedded structs such as BestChecksums is decided by C10-DOC on a probe type)
 }
 
 func keysOf(m map[string]bool) []string {
@@ -1018,7 +1041,6 @@ func c10Reader(p *Prog, rp *Report) {
 	r.check(same && isParam && srcFirst, "control.ParseControl", pos, "both Unmarshal calls get the function's reader parameter; Source first, then Binaries",
 		fmt.Sprintf("Unmarshal targets %v; same reader value: %v; reader is the parameter: %v", targets, same, isParam))
 }
-
 
 // descentGuardDominates: the `kind == Struct` test guarding the descent is
 // evaluated before the Anonymous test on every path.
